@@ -752,7 +752,9 @@ def _crawl_directory_data_space(root, project, schema_function):
             dst = job.path
             if os.path.realpath(path) == os.path.realpath(dst):
                 continue  # skip (already part of the data space)
-            elif os.path.realpath(path).startswith(workspace_real_path):
+            elif (os.path.realpath(path) + os.sep).startswith(
+                workspace_real_path + os.sep
+            ):
                 continue  # skip (part of the project's workspace)
             yield path, job
 
